@@ -133,11 +133,11 @@ package vuego
 
 //@ func (s *Stack) Lookup(name) (v, ok)
 //@   pure
-//@   ensures C17.innermost: lookupIdx(s, name, len(s.stack) - 1) >= 0 ==>
+//@   ensures C04+C05+C17.innermost: lookupIdx(s, name, len(s.stack) - 1) >= 0 ==>
 //@     ok && v == s.stack[lookupIdx(s, name, len(s.stack) - 1)][name]
 //@   ensures C17.rootfallback: lookupIdx(s, name, len(s.stack) - 1) < 0 ==>
 //@     (ok == (s.rootData != nil && rootHas(s.rootData, name))) && (ok ==> v == rootGet(s.rootData, name)) && (!ok ==> v == nil)
-//@   loop 0 invariant C17.scan: 0 - 1 <= i && i < len(s.stack) && lookupIdx(s, name, len(s.stack) - 1) == lookupIdx(s, name, i)
+//@   loop 0 invariant C04+C05+C17.scan: 0 - 1 <= i && i < len(s.stack) && lookupIdx(s, name, len(s.stack) - 1) == lookupIdx(s, name, i)
 
 //@ func (s *Stack) Set(key, val)
 //@   modifies s.stack, s.pooled, contents(s.stack[len(s.stack) - 1])
@@ -214,7 +214,7 @@ package vuego
 // Front-matter is merged over a copy: the caller's map is never written (C09: shared read-only data, C10).
 //@ func mergeFrontMatter(data, frontMatter) (r)
 //@   modifies nothing
-//@   ensures C09+C10.merge.fresh: fresh(r) && r != nil
+//@   ensures C09+C10+C15.merge.fresh: fresh(r) && r != nil
 //@   ensures C08+C10.merge.precedence: forall k string :: ((k in r) == ((k in frontMatter) || (k in data))) &&
 //@     ((k in r) ==> r[k] == ((k in frontMatter) ? frontMatter[k] : data[k]))
 //@   loop 0 invariant C10.merge.data: fresh(merged) && merged != nil && forall k string ::
@@ -269,8 +269,11 @@ package vuego
 //@   loop 0 decreases C07+C11.chain.ends: maxDepth - depth
 //@   assert C07.current.loaded: $arg0 == filename at "call Load"
 //@   assert C07.relative.current: $arg1 == filename at "call resolveLayoutPath"
+//@   assert C07.named.nonempty: $arg0 != "" && $arg0 == layout at "call resolveLayoutPath"
 
 //@ func (t *template) Render(ctx, w) (err)
+//@   assert C07.dispatch.readonly: false at "never call Assign"
+//@   assert C07.plain.only.if: layout == "" && !fileExists(t.vue.loader.FS, "layouts/base.vuego") at "call renderWithoutLayout"
 //@   ensures C12.nothing: err != nil && !failed(w) ==> out(w) == old(out(w))
 //@   ensures C12.reported: failed(w) && !old(failed(w)) ==> err != nil
 //@   ensures C12.complete: err == nil ==> failed(w) == old(failed(w))
@@ -362,10 +365,11 @@ package vuego
 //@   decreases maxEvalDepth + 10 - depth, 1
 //@   requires C04.head: len(nodes) >= 1
 //@   ensures C04.balance: BALANCED(ctx)
-//@   loop 0 invariant C04.balance.loop: BALANCED(ctx)
 //@   ensures C04.skip.range: 0 <= skip && skip < len(nodes)
 //@   assert C04.else.only.if.empty: len(loopNodes) == 0 at "call evaluateNodeAsElement"
-//@   loop 1 invariant C04.else.scan: 1 <= j && skipCount == 0 && BALANCED(ctx)
+//@   assert C03+C04.else.adjacent: 1 <= j && j < len(nodes) && $arg1 == nodes[j] && (forall k int :: 1 <= k && k < j ==> nodes[k].Type != html.ElementNode) at "call evaluateNodeAsElement"
+//@   loop 0 invariant C04.else.scan: 1 <= j && skipCount == 0 && BALANCED(ctx)
+//@   loop 0 invariant C03+C04.else.scan.adjacent: forall k int :: 1 <= k && k < j && k < len(nodes) ==> nodes[k].Type != html.ElementNode
 
 //@ func (v *Vue) evaluate(ctx, nodes, depth) (res, err)
 //@   decreases maxEvalDepth + 10 - depth, 2
@@ -452,6 +456,23 @@ package vuego
 //@   loop 1 invariant C18.dir.layer: merged != nil && fresh(merged) && forall nm string :: ((nm in merged) <==> (old(firstEntry(o.chainFS, name, nm, $i0)) != nil || firstIn(chainfs, name, nm, $i) != nil)) && ((nm in merged) ==> entryName(merged[nm]) == nm && merged[nm] == (old(firstEntry(o.chainFS, name, nm, $i0)) != nil ? old(firstEntry(o.chainFS, name, nm, $i0)) : firstIn(chainfs, name, nm, $i)))
 //@   loop 2 invariant C18.dir.collect: fresh(entries) && forall i int :: 0 <= i && i < len(entries) ==> entries[i] != nil && entries[i] == old(firstEntry(o.chainFS, name, now(entryName(entries[i])), len(o.chainFS)))
 
+// Glob: every returned path is a match of some non-nil layer (the union is sound); the collection goes through a set,
+// so the same path from two layers appears once. The sort is modelled as a permutation (sortedness not decided).
+//@ spec func isGlobMatch(fsys Val, pattern string, s string) bool {
+//@   0 <= globIdx(fsys, pattern, s) && globIdx(fsys, pattern, s) < globLen(fsys, pattern) && globAt(fsys, pattern, globIdx(fsys, pattern, s)) == s }
+//@ spec func anyLayer(chain []fs.FS, pattern string, s string, k int) bool decreases k {
+//@   k <= 0 ? false : (anyLayer(chain, pattern, s, k - 1) || (chain[k - 1] != nil && isGlobMatch(chain[k - 1], pattern, s))) }
+//@ func (o *OverlayFS) Glob(pattern) (r, err)
+//@   modifies nothing
+//@   ensures C18.glob.noerror: err == nil
+//@   ensures C18.glob.sound: forall i int :: 0 <= i && i < len(r) ==> old(anyLayer(o.chainFS, pattern, now(r[i]), len(o.chainFS)))
+//@   loop 0 invariant bounds: 0 <= $i && $i <= len(o.chainFS)
+//@   loop 0 invariant C18.glob.union: matchMap != nil && fresh(matchMap) && forall s string :: (s in matchMap) <==> old(anyLayer(o.chainFS, pattern, s, $i))
+//@   loop 1 invariant bounds: 0 <= $i && $i <= len(matches)
+//@   loop 1 invariant C18.glob.layer: matchMap != nil && fresh(matchMap) && forall s string :: (s in matchMap) <==>
+//@     (old(anyLayer(o.chainFS, pattern, s, $i0)) || (isGlobMatch(chainfs, pattern, s) && globIdx(chainfs, pattern, s) < $i))
+//@   loop 2 invariant C18.glob.collect: fresh(results) && forall i int :: 0 <= i && i < len(results) ==> old(anyLayer(o.chainFS, pattern, now(results[i]), len(o.chainFS)))
+
 //@ func NewOverlayFS(upper, lower) (o)
 //@   modifies nothing
 //@   ensures C18.chain.order: fresh(o) && len(o.chainFS) == len(lower) + 1 && o.chainFS[0] == upper &&
@@ -479,17 +500,34 @@ package vuego
 //@   modifies nothing
 //@ func parseArgs(argStr) (r)
 //@   modifies nothing
-//@ func (v *Vue) interpolateToWriter(ctx, w, input) (err)
-//@   modifies out(w), failed(w), caches(v)
 //@ func (v *Vue) interpolate(ctx, input) (r, err)
 //@   modifies caches(v)
 //@ func (v *Vue) splitObjectItems(content) (r)
 //@   modifies nothing
 //@ func (v *Vue) parseObjectPairs(ctx, content) (r)
 //@   modifies caches(v)
+// Interpolation scanner (C02: static neighbours are concatenated with the value's string form): every static segment
+// runs from the end of the previous mustache to the first "{{" after it, a mustache ends at the first "}}" after its
+// opening braces, and the tail after the last mustache is copied.
+//@ func (v *Vue) interpolateToWriter(ctx, w, input) (err)
+//@   modifies out(w), failed(w), caches(v)
+//@   loop 0 invariant C02.interp.scan: 0 <= last && last <= len(input)
+//@   assert C02.interp.static: 0 <= last && last <= start && start + 2 <= len(input) && start == last + indexOf(input[last:], "{{") &&
+//@     indexOf(input[start + 2:], "}}") >= 0 && endPos == start + 4 + indexOf(input[start + 2:], "}}") && endPos <= len(input) at "io.WriteString(w, input[last:start])"
+//@   assert C02.interp.tail: 0 <= last && last <= len(input) at "io.WriteString(w, input[last:])"
+
+// Bound attributes (C14): a value written with mustaches is interpolated; the object-literal reading applies only
+// to expressions without interpolation.
+//@ spec func hasMustache(s string) bool
+//@ func containsInterpolation(input) (r)
+//@   trusted
+//@   pure
+//@   ensures r == hasMustache(input)
 //@ func (v *Vue) evalObjectBinding(ctx, attrName, expr) (r)
 //@   modifies caches(v)
 //@ func (v *Vue) evalBoundAttribute(ctx, attrName, expr) (r, err)
+//@   assert C14.bound.mustache.first: !hasMustache($arg2) at "call evalObjectBinding"
+//@   assert C14.bound.mustache.first.pipe: !hasMustache($arg0) at "call parsePipeExpr"
 //@   modifies caches(v)
 //@ func (v *Vue) mergeStyles(staticStyle, boundStyle) (r)
 //@   modifies nothing
@@ -581,6 +619,7 @@ package vuego
 //@   ensures C04.balance: BALANCED(ctx)
 
 //@ func (v *Vue) propagateTemplateAttributes(ctx, node)
+//@   assert C05.props.not.propagated: !hasAttrUpTo(node.Attr, "include", len(node.Attr)) at "call Set"
 //@   holds ctx.stack
 //@   requires C04.prop.depth: len(ctx.stack.stack) >= 2
 //@   ensures C04.balance: BALANCED(ctx)
@@ -615,6 +654,7 @@ package vuego
 //@   loop 0 invariant C05.balance.loop: BALANCED(ctx)
 //@   loop 5 invariant C05.balance.loop: BALANCED(ctx)
 //@   loop 3 invariant C05.required.scan: 0 <= $i && $i <= len(requiredAttrs) && forall ri int :: 0 <= ri && ri < $i ==> (requiredAttrs[ri] in componentData)
+//@   assert C01+C04.include.attrs.private: fresh($arg1) && $arg1 != nil at "call evalAttributes"
 //@   assert C05.required.checked: forall ri int :: 0 <= ri && ri < len(requiredAttrs) ==> (requiredAttrs[ri] in componentData) at "call evalVHtml"
 
 //@ func (v *Vue) evalInclude(ctx, node, vars, depth) (res, err)
